@@ -137,10 +137,17 @@ PROPS = {
         'assumptions': [_TV_NOTE],
     },
     'C16': {
-        'modules': [],
+        'modules': ['SE.Props.C16', 'SE.Proofs.QueueDriver'],
         'streams': [{'component': 'queue'}, {'component': 'qconc', 'judge': _qjudge}],
-        'level': 'translation_validation',
+        'level': 'proof',
         'trusted_base': ["Go runtime semantics of sync.Mutex and channels (a send blocks while the channel is full; the mutex is held across the send) as encoded in the step relation of SE/Model/Queue.lean", "real goroutine schedules are sampled, not enumerated (the theorems quantify over all schedules of the model's atomic steps)"],
+        'assumptions': [],
+    },
+    'C17': {
+        'modules': [],
+        'streams': [{'component': 'relay'}],
+        'level': 'translation_validation',
+        'trusted_base': ["Go `select` picks any ready case; channel/goroutine semantics as encoded in the step relation of SE/Model/Relay.lean", "loopback UDP delivers datagrams intact and in order", "the deterministic stream lets the sender take each line before the next operation (hook VerifPending); other schedules are covered only by the model's theorems"],
         'assumptions': [_TV_NOTE],
     },
 }
